@@ -269,6 +269,15 @@ func VF_C15_todo() {
 	name := vfStr("name", 3)
 	svc := input.Service{Todo: &yes, Getter: &junk, Type: &junk, Value: &junk, Constructor: &junk,
 		Args: []any{junk}, Calls: []input.Call{{Method: junk, Args: []any{"@" + junk}}}, Fields: map[string]any{junk: junk}, Tags: []input.Tag{{Name: junk}}}
+	// accepted by the validator whatever its attributes, even when its getter
+	// equals the getter of a real service (a todo service's getter is never generated)
+	shared := "GetReal"
+	realCtor := "NewX"
+	todoSvc := svc
+	todoSvc.Getter = &shared
+	verr := input.NewDefaultValidator("").Validate(input.Input{Services: map[string]input.Service{
+		"todo": todoSvc, "zreal": {Constructor: &realCtor, Getter: &shared}}})
+	vfAssert(verr == nil, "a todo service is accepted whatever its attributes, also next to a real service with the same getter")
 	var o output.Output
 	err := w.services.Process(input.Input{Services: map[string]input.Service{name: svc}}, &o)
 	vfAssert(err == nil, "a todo service compiles whatever its attributes")
@@ -342,7 +351,12 @@ func VF_C14_positions() {
 	id := []string{"T", "Val"}[vfChoice("ident", 2)]
 
 	ref, wantPath := "", ""
-	switch vfChoice("form", 7) {
+	switch vfChoice("form", 9) {
+	case 7:
+		// an alias followed by a sub-path of two segments
+		ref, wantPath = al+"/"+seg+"/deep", full+"/"+seg+"/deep"
+	case 8:
+		ref, wantPath = "\""+al+"/"+seg+"/deep\"", full+"/"+seg+"/deep"
 	case 0:
 		ref, wantPath = al, full
 	case 1:
